@@ -7,6 +7,7 @@ import (
 	"time"
 
 	"github.com/atlassian/gostatsd"
+	"github.com/atlassian/gostatsd/internal/flush"
 	"github.com/atlassian/gostatsd/pkg/web"
 )
 
@@ -163,3 +164,63 @@ func VerifC15_Twin() {
 	verifC15Retry(2, 30*time.Second)
 	verifAssert(false, "twin-false")
 }
+
+// VerifC15_Pipeline: the real forwarder end to end in one thread of control: the real
+// HttpForwarderHandlerV2.Run (as a goroutine under the engine's scheduler: start-up no-op post,
+// merge semaphore, request semaphore, MergeMaps, SplitByTags, postMetrics, notifyFlush), the real
+// MetricConsolidator (s slots) and the real manual flush coordinator, with the real ingestion
+// handler behind a harness RoundTripper. k datapoints are dispatched, a flush is requested
+// through the coordinator and awaited: every datapoint whose dispatch returned before the flush
+// is delivered upstream in exactly one request, and the semaphores are fully returned.
+func verifC15Pipeline(k int) {
+	slots := nondetIntIn(1, 3)
+	hfh, up := verifNewForwarder(false, 8, false, web.Zlib, 30*time.Second)
+	fc := flush.NewFlushCoordinator()
+	hfh.flushCoordinator = fc
+	hfh.consolidatedMetrics = make(chan []*gostatsd.MetricMap)
+	hfh.consolidator = gostatsd.NewMetricConsolidator(slots, false, time.Hour, hfh.consolidatedMetrics)
+	fc.RegisterFlushable(hfh.consolidator)
+	hfh.metricsSem = make(chan struct{}, 2)
+	hfh.metricsSem <- struct{}{}
+	hfh.metricsSem <- struct{}{}
+	hfh.metricsMergingSem = make(chan struct{}, 1)
+	hfh.metricsMergingSem <- struct{}{}
+	ctx, cancel := context.WithCancel(context.Background())
+	go hfh.Run(ctx)
+	verifYield()
+	nopRequests := len(up.rec.maps) // the start-up no-op post
+	var sent [2]int64
+	for i := 0; i < k; i++ {
+		ni := nondetIntIn(0, 1)
+		v := int64(nondetInt32())
+		mm := gostatsd.NewMetricMap(false)
+		mm.Counters[verifNames[ni]] = map[string]gostatsd.Counter{"": {Value: v}}
+		hfh.DispatchMetricMap(ctx, mm)
+		sent[ni] += v
+	}
+	fc.Flush()
+	fc.WaitForFlush()
+	var got [2]int64
+	requests := 0
+	for _, m := range up.rec.maps[nopRequests:] {
+		requests++
+		for ni := 0; ni < 2; ni++ {
+			for _, c := range m.Counters[verifNames[ni]] {
+				got[ni] += c.Value
+			}
+		}
+	}
+	if k > 0 {
+		verifAssert(requests == 1, "one flush of the forwarder produces one request body (no dynamic headers)")
+	} else {
+		verifAssert(requests == 0, "an empty flush posts nothing")
+	}
+	verifAssert(got[0] == sent[0] && got[1] == sent[1], "every datapoint dispatched before the flush is delivered upstream exactly once")
+	verifAssert(len(hfh.metricsSem) == 2 && len(hfh.metricsMergingSem) == 1, "request and merge semaphores are fully returned")
+	cancel()
+	verifReach("pipeline")
+}
+
+func VerifC15_Pipeline0() { verifC15Pipeline(0) }
+func VerifC15_Pipeline1() { verifC15Pipeline(1) }
+func VerifC15_Pipeline3() { verifC15Pipeline(3) }
